@@ -8,6 +8,10 @@ ASSUME ndJsonSerialize("accept_vectors.ndjson",
          SetToSeq({[in |-> h, exp |-> Expect(h)] :
                      h \in AcceptVectors({"none", "decl", "space"}, {"absent", "valid", "invalid"})}))
 
+(* sessions negotiated through one Negotiator value *)
+ASSUME ndJsonSerialize("emit_shared.ndjson",
+         SetToSeq({[in |-> sx, exp |-> ExpSharedEmit(sx)] : sx \in SharedEmitScenarios}))
+
 EInit == x = 0 /\ wire = 0 /\ v = 0 /\ pc = "" /\ verdict = ""
 ENext == UNCHANGED <<avars, bvars>>
 =============================================================================
